@@ -92,7 +92,11 @@ static KEYWORDS: [&str; 64] = [
     "yield",
 ];
 pub(crate) fn ident(id: &str) -> RcDoc<'_> {
-    if KEYWORDS.contains(&id) {
+    // Reserved words, and `IDL` (the factory's parameter), get a `_` appended. So that
+    // the renaming stays injective, names that already are such a word followed by
+    // underscores are shifted as well (`default_` becomes `default__`).
+    let stem = id.trim_end_matches('_');
+    if KEYWORDS.contains(&stem) || stem == "IDL" {
         str(id).append("_")
     } else {
         str(id)
